@@ -51,7 +51,7 @@ def channel_kind(spec):
 
 
 def strata(tier):
-    ns = {1: [8, 9], 2: [6, 7], 3: [5, 6]} if tier == "quick" else {1: [7, 8, 12, 17], 2: [5, 6, 9, 10], 3: [5, 6, 7, 8]}
+    ns = {1: [8, 9, 16], 2: [6, 7, 12], 3: [5, 6, 8]} if tier == "quick" else {1: [7, 8, 12, 17, 24], 2: [5, 6, 9, 10, 12, 16], 3: [5, 6, 7, 8, 12]}
     out = []
     i = 0
     for f in configs.ALL_FAMILIES:
